@@ -12,21 +12,35 @@ import json, re, warnings
 from .common import Ctx, Driver, cps, tok
 
 MANIFEST = dict(
-    text=("Lean theorems over all element lists/trees, start elements, criteria and oracle predicates (regex, user functions): "
-          "the code-mirror of _find_all (both fast paths, the no-criteria branch, the SoupStrainer path with rule construction, "
-          "one-rule shortcut, prefixed-name retry, _attribute_match with the joined-value retry, string= via Tag.string, the "
-          "ElementFilter limit loop) returns exactly axis.filter(sat) for the documented meaning `sat` (findAll_eq_spec, "
-          "fast_eq_general, no_criteria_all_tags), limit k>=1 is the k-prefix (limit_prefix), the singular methods are head? of the "
-          "plural (find_first), tag(...) and tag.name are the same searches (call_is_find_all, getattr_is_find), a name function is "
-          "called once per candidate tag with the Tag (fn_called_once_with_tag), simple CSS selectors agree with their find_all "
-          "form (css_agrees); witness theorems for the unrepaired/known behaviours. Tie: differential runs of the real find_* "
-          "methods, Tag.__call__, Tag.__getattr__ and select() against the Lean model and against an independent Python "
-          "evaluator over parsed / API-built / edited trees with prefixes and multi-valued attributes."),
+    text=("Lean theorems for every sound variant of the code (in particular /repo HEAD), over all element lists / trees / pointer heaps, "
+          "start elements, criteria and oracle predicates (regular expressions and user functions are arbitrary predicates): the "
+          "code-mirror of _find_all (both fast paths, the no-criteria branch, the SoupStrainer path with rule construction, one-rule "
+          "shortcut, prefixed-name retry, _attribute_match with the joined-value retry, string= via Tag.string, the ElementFilter limit "
+          "loop) returns exactly axis.filter(sat) for the documented meaning `sat` (findAll_eq_spec, fast_eq_general, "
+          "no_criteria_all_tags, sole_empty_criterion_nothing), limit k>=1 is the k-prefix (limit_is_spec_prefix, limit_prefix), the "
+          "singular methods are head? of the plural (find_first_spec, find_first), tag(...) and tag.NAME are the same searches "
+          "(call_is_find_all, getattr_is_find, getattr_tag_suffix, getattr_dunder), a name function is called once per candidate tag "
+          "with the Tag and a limit only cuts that sequence (fn_called_once_with_tag, fn_calls_limit_prefix). The same on the pointer "
+          "heap with the real generators (Model/Heap iterators): heap_findAll_exact, heap_axes, heap_find_all_descendants, "
+          "recursive_false_sublist, and for the heap after ANY edit history / parse + edit history via C01 (search_after_any_history, "
+          "search_after_parse_and_edits). Forwarding glue of all sixteen wrappers read from the live source through ast and proved "
+          "over the whole generated table (forwarders_checked, forwarding_glue). CSS: dispatch of Tag.select/select_one/Tag.css.* to "
+          "soupsieve mirrored with the engine as a parameter (select_dispatch), simple selectors agree with their find_all form "
+          "(css_agrees) and through the dispatch under EngineSpec (css_select_eq_find_all). Hypotheses: Variant.Covers (for HEAD: "
+          "outside the known findings C10-empty-list-combined / C10-falsy-attrs-ignored; with the two proposed, unapplied patches: "
+          "none, *_proposed theorems), k>=1 (C10-limit-zero), well-formed prefixes; witnesses for each. Tie: differential runs of the "
+          "real find_* methods, Tag.__call__, Tag.__getattr__, select()/select_one against the Lean tree-level model, the Lean "
+          "heap-level model fed with the real pointer fields, and an independent Python evaluator, over parsed / API-built / edited "
+          "trees; exhaustive dispatch stream with a recording stand-in for soupsieve."),
     design="7/C10",
-    note=("regex and user functions enter the model as per-case truth tables; soupsieve is recorded (select() compared with "
-          "find_all on type/.class/#id/[a]/[a=v]/descendant/child selectors); the BeautifulSoup root is not used as start "
-          "element of the next/previous axes and is dropped from previous-axis results (C01 leaves its chain position free); "
-          "ElementFilter.filter never yields an empty NavigableString (stated)."),
+    note=("regex and user functions enter the model as per-case truth tables; the soupsieve ENGINE is recorded, not modelled (its "
+          "EngineSpec hypothesis — select = matching descendants in document order, limit k = prefix, select_one = first — is "
+          "validated on every CSS case; descendant/child combinators are compared with nested find_all in the harness only); at tree "
+          "level the BeautifulSoup root is not used as start element of the next/previous axes and is dropped from previous-axis "
+          "results (C01 leaves its chain position free) — the heap-level stream compares those cases too, on the real pointers; "
+          "ElementFilter.filter never yields an empty NavigableString (stated); the tree-level axes of Model/Search.lean are "
+          "definitions over the tree (the independent traversal), the heap-level axes are C01's iterators with C01's theorems; no Lean "
+          "theorem links a `Node` tree to a `Heap` (both are compared with the real code)."),
     technique="Lean 4 refinement proof (code-mirror = documented meaning) + differential correspondence + independent evaluator",
 )
 
@@ -34,9 +48,9 @@ NAMES = ["a", "b", "p", "div", "i", "x:y", "em"]
 PREFIXES = ["p", "q", "svg"]
 ATTRS = ["id", "class", "title", "href", "lang", "rel", "data-x", "class_"]
 KWKEYS = ["id", "class_", "title", "href", "lang", "rel"]
-CLASS_TOKENS = ["u", "v", "w", "big", "u-v"]
-VALUES = ["v", "w", "x1", "", "u v", "a b c", "3", "True"]
-TEXTS = ["hi", "x", "a b", "zz", " ", "3", "u"]
+CLASS_TOKENS = ["u", "v", "w", "big", "u-v", "U", "\u00e9"]
+VALUES = ["v", "w", "x1", "", "u v", "a b c", "3", "True", "V", "\u00e9", "\u2603 v", "1"]
+TEXTS = ["hi", "x", "a b", "zz", " ", "3", "u", "HI", "\u00e9\u2603", "1"]
 REGEXES = ["^a", "b", ":", "^p:", "v$", ".", "x|i", "^$", " ", "^u"]
 FAMILIES = ["desc", "child", "next", "prev", "nsib", "psib", "par"]
 # names only the API can produce (html.parser lower-cases and cannot start a tag with `_`): single-underscore names (legal
@@ -321,10 +335,16 @@ def enc_crit(c):
     return "L" + "|".join(enc_crit(x) for x in c[1])
 
 
-def py_crit(c, fnmk):
+def py_crit(c, fnmk, seq=0, strsub=0):
+    """the Python object for a criterion. `seq`: a list criterion is passed as list (0) / tuple (1) / generator (2);
+    `strsub`: a str criterion is passed as a plain str (0) or as an instance of a str subclass (1: NavigableString)"""
     k = c[0]
     if k == "n": return None
-    if k == "s": return c[1]
+    if k == "s":
+        if strsub:
+            from bs4.element import NavigableString
+            return NavigableString(c[1])
+        return c[1]
     if k == "y": return c[1].encode("utf8")
     if k == "b": return c[1]
     if k == "f": return fnmk(c[1])
@@ -332,7 +352,8 @@ def py_crit(c, fnmk):
     if k == "o": return c[1]
     if k == "N": return [True, "a"]
     # a nested list is ignored as a whole (filter.py:458-469); its content would match a lot if it were looked into
-    return [py_crit(x, fnmk) if x[0] != "N" else [True, "a", re.compile(".")] for x in c[1]]
+    items = [py_crit(x, fnmk, seq, strsub) if x[0] != "N" else [True, "a", re.compile(".")] for x in c[1]]
+    return items if seq == 0 else tuple(items) if seq == 1 else (x for x in items)
 
 
 def atoms(c):
@@ -477,7 +498,7 @@ def gen_atom(r, pool, role):
     if x < 0.90:
         return ("b", False)
     if x < 0.95:
-        return ("o", r.choice([3, 0, 2.5]))
+        return ("o", r.choice([3, 0, 2.5, 1, 1.0]))
     return ("n",)
 
 
@@ -501,7 +522,7 @@ def gen_query(r, snap: Snap, target=None):
     from bs4.element import Tag
     names = [n.name for n in snap.nodes[1:] if isinstance(n, Tag)] or ["a"]
     pnames = [f"{n.prefix}:{n.name}" for n in snap.nodes[1:] if isinstance(n, Tag) and n.prefix]
-    name_pool = names * 6 + pnames * 6 + NAMES + ["p:a", "q:b", "zz", "", "[document]", ":", "a:"]
+    name_pool = names * 6 + pnames * 6 + NAMES + ["p:a", "q:b", "zz", "", "[document]", ":", "a:", ":a", ":b", "A", "B"]
     texts = [str(n) for n in snap.nodes if not isinstance(n, Tag)] or ["x"]
     text_pool = texts * 5 + TEXTS
     val_pool = [u for u in snap.universe] * 3 + VALUES + CLASS_TOKENS
@@ -582,14 +603,32 @@ def run_real(snap: Snap, start: int, fam: str, form: str, limit, q: Q):
         return lambda x: str_fn(i, None if x is None else str(x))
 
     el = snap.nodes[start]
-    args, kw = [], {}
-    kw.update({k: py_crit(c, other_fn) for k, c in q.kwargs})
-    name = py_crit(q.name, name_fn)
-    attrs = {k: py_crit(c, other_fn) for k, c in q.attrs[1]} if q.attrs[0] == "D" else py_crit(q.attrs[1], other_fn)
+    # the argument forms are varied deterministically per case (so that a replay repeats them): list criteria as list / tuple /
+    # generator, str criteria as str / str subclass, and the call itself positional / defaults omitted / all keywords
+    import zlib
+    hsh = zlib.crc32(f"{snap.enc}|{start}|{fam}|{form}|{limit}|{q.enc()}".encode())
+    seq, strsub, style = hsh % 3, (hsh // 3) % 4 == 0, (hsh // 12) % 3
+    kw = {}
+    kw.update({k: py_crit(c, other_fn, seq, strsub) for k, c in q.kwargs})
+    name = py_crit(q.name, name_fn, seq, strsub)
+    # (a generator is always truthy: as a non-dict `attrs` value only list/tuple keep the truth value the model assumes)
+    attrs = {k: py_crit(c, other_fn, seq, strsub) for k, c in q.attrs[1]} if q.attrs[0] == "D" \
+        else py_crit(q.attrs[1], other_fn, seq % 2, strsub)
     if q.string != ("n",):
-        kw["string"] = py_crit(q.string, other_fn)
+        kw["string"] = py_crit(q.string, other_fn, seq, strsub)
     if fam == "child":
         kw["recursive"] = False
+    if style == 0:
+        args = [name, attrs]
+    elif style == 1:        # leave out what is at its default: `find_all()`, `find_all("a")`, `find_all(id="x")`
+        args = []
+        if not (q.attrs == ("D", [])):
+            kw["attrs"] = attrs
+        if name is not None:
+            args = [name]
+    else:
+        args = []
+        kw["name"], kw["attrs"] = name, attrs
     try:
         with warnings.catch_warnings():
             warnings.simplefilter("ignore")
@@ -597,16 +636,16 @@ def run_real(snap: Snap, start: int, fam: str, form: str, limit, q: Q):
                 m = getattr(el, METHODS[fam][0])
                 if limit is not None:
                     kw["limit"] = limit
-                res = m(name, attrs, **kw)
+                res = m(*args, **kw)
                 return [snap.idx.get(id(x), -1) for x in res], log
             if form == "one":
                 m = getattr(el, METHODS[fam][1])
-                res = m(name, attrs, **kw)
+                res = m(*args, **kw)
                 return (None if res is None else snap.idx.get(id(res), -1)), log
             if form == "call":
                 if limit is not None:
                     kw["limit"] = limit
-                res = el(name, attrs, **kw)
+                res = el(*args, **kw)
                 return [snap.idx.get(id(x), -1) for x in res], log
             raise AssertionError(form)
     except Exception as e:  # the property names no exception
@@ -918,7 +957,13 @@ def flush_model(ctx: Ctx, drv: Driver, lines, pend):
             ctx.count("model:heap-requests")
         if isinstance(real, str) or mres != real or mlog != rlog:
             ctx.corr_disagreements += 1
-            if not bad:
+            if bad and kf is not None:
+                # the case is in a known-finding class (its oracle failure is suppressed), but the code no longer behaves as
+                # the finding was recorded and modelled: that is a change of behaviour, reported unsuppressed
+                ctx.violation(f"behaviour inside the known-finding class {kf} differs from the recorded one (Lean mirror)",
+                              case=desc | {"line": line}, expected=f"{show_res(mres)} | {show_log(mlog or [])}",
+                              observed=f"{show_res(real)} | {show_log(rlog)}", model=rep, stream="correspondence-known-class")
+            elif not bad:
                 # model = documented meaning + mirrored quirks: a disagreement on results/log is a failing input
                 ctx.violation("real search differs from the Lean model (" + ("findAllH on the real pointers" if heap else "findAllFam") + ")",
                               case=desc | {"line": line},
